@@ -401,5 +401,72 @@ class Scales(Stream):
         return case["chord"]["elem"] != 0 or case["chord"]["tmode"] != "M"
 
 
+class DerivedAfterUse(Stream):
+    """a chord derived (octave, mode, degree, modulation, figure, copy) from a chord whose scales and tones have ALREADY been read
+    has the scale and tones of the same chord built from scratch (memoised properties must not travel with the copy)"""
+    name = "derived_after_use"
+    checker = None
+    pair = "property oracle: pitch lists of op(used chord) vs op(fresh chord), against the closed forms of the statement"
+    quick, thorough = 600, 10000
+
+    OPS = ["o", "set_octave", "change_mode", "set_degree", "mod", "getitem", "copy", "invert"]
+
+    def gen(self, rng, n):
+        for _ in range(n):
+            c = base_chord(rng)
+            c["fig"] = rng.choice(THREE + FOUR)
+            yield {"chord": c, "op": rng.choice(self.OPS), "k": rng.choice([1, -1, 2]), "mode": rng.choice(MODES), "deg": rng.randrange(7),
+                   "t": [rng.randrange(12), rng.choice(MODES), rng.choice([0, 1, -1])], "fig2": rng.choice(THREE + FOUR)}
+
+    def apply(self, ch, case):
+        from musiclang import Tonality
+        op = case["op"]
+        if op == "o":
+            return ch.o(case["k"])
+        if op == "set_octave":
+            return ch.set_octave(case["k"])
+        if op == "change_mode":
+            return ch.change_mode(case["mode"])
+        if op == "set_degree":
+            return ch.set_degree(case["deg"])
+        if op == "mod":
+            return ch % Tonality(*case["t"])
+        if op == "getitem":
+            return ch[case["fig2"]]
+        if op == "invert":
+            return ch.invert(case["k"])
+        return ch.copy()
+
+    def impl(self, case):
+        def f():
+            lists = lambda c: [[int(x) for x in c.scale_pitches], [int(x) for x in c.chord_pitches], [int(x) for x in c.chord_extension_pitches],
+                               [int(x) for x in c.chromatic_scale_pitches]]
+            used = mlang.mk_chord(case["chord"])
+            lists(used)
+            used.to_pitch(mlang.mk_note({"kind": "s", "val": 3, "oct": 0}))
+            derived = self.apply(used, case)
+            fresh = self.apply(mlang.mk_chord(case["chord"]), case)
+            same_obj = mlang.mk_chord(case["chord"])
+            first = lists(same_obj)
+            return {"derived": lists(derived), "fresh": lists(fresh), "stable": lists(same_obj) == first,
+                    "id": [int(derived.element), derived.tonality.degree, derived.tonality.mode, derived.tonality.octave, derived.octave]}
+        return mlang.guarded(f)
+
+    def spec(self, case, r):
+        if mlang.is_exc(r):
+            return {"sig": f"derived-chord-raises:{case['op']}", "msg": str(r)}
+        if r["derived"] != r["fresh"] or not r["stable"]:
+            return {"sig": f"derived-chord-stale:{case['op']}", "msg": f"after use {r['derived'][0]} ; from scratch {r['fresh'][0]}"}
+        # and the scale is the closed form of the statement for the derived chord
+        e, td, tm, to, co = r["id"]
+        want = [spec_chord_deg({"elem": e, "tdeg": td, "tmode": tm, "toct": to, "coct": co}, j) for j in range(7)]
+        if r["derived"][0] != want:
+            return {"sig": f"derived-chord-scale:{case['op']}", "msg": f"{r['derived'][0]} expected {want}"}
+        return None
+
+    def hist_keys(self, case, r):
+        return ["op=" + case["op"]]
+
+
 def streams():
-    return [Scales(), Normalize(), GetItem(), Invert(), Root(), InversionProps()]
+    return [Normalize(), GetItem(), Invert(), Root(), InversionProps(), Scales(), DerivedAfterUse()]
